@@ -100,3 +100,9 @@ claim(
     "Seeded random exploration of functions with declared-only variables (with/without tags) and conditionally used undefined globals x {tooled, $x, specific probes, meta-only, none} x supplied subsets via tweaking / rewriting / overridable probes: supplied => equal to the substituted twin; instrumented and unsupplied => PteraNameError at the declaration identifying variable, function, annotation and provenance; undefined names used => NameError family, unused => equal to plain; the marker never reaches user code. Held-on-observed apart from one listed known finding.",
     "Uninstrumented declarations may fail at first use (Python's UnboundLocalError); configurations that instrument an undefined global are routed to the known-finding stream (undefined-global-fails-at-entry).",
 )
+claim(
+    "C08",
+    "controlled-concurrency monitor: a deterministic cooperative scheduler on sys.settrace enumerates thread switches at line (and opcode) granularity inside ptera's activation / deactivation / call-entry code; per-thread event streams and post-join instrumentation state are compared with the sequential reference",
+    "Five scenarios of 2-3 threads activating / calling / deactivating probes and raw overlays on shared functions, cold and warm; every single-preemption schedule at line granularity plus random schedules with <=3 preemptions (quick), opcode-granularity single preemptions inside push/pop/_apply/_tooler, two-preemption and denser random schedules (thorough).  Exactly one thread runs at a time, so each execution is a pure function of its schedule and every failure replays.  Held-on-observed: covers only the enumerated switch points, not free-running preemption inside C code.",
+    "Locks found in ptera's modules are swapped for cooperative locks; a deadlocked or over-long schedule is inconclusive; global probes seen from other threads are not asserted.",
+)
